@@ -40,6 +40,13 @@ Proof. exact km_identity_ok. Qed.
 Theorem C13_current_source_ruleless_instance_recomputes : ruleless_instance_recomputes = Some true.
 Proof. exact ruleless_instance_recomputes_ok. Qed.
 
+(** the model's version is a function of the world as it is NOW (code, defaults, variable values); the
+    implementation's rule for a memento function must therefore use that function's current code hash,
+    which covers the values of its default parameters — objects that can be mutated after the definition
+    (before fcabd34 the hash cached at definition time was used) *)
+Theorem C13_current_source_refreshes_code_hash : code_hash_refreshed = Some true.
+Proof. exact code_hash_refreshed_ok. Qed.
+
 (** a history in which the cache is used, invalidated by a variable, by a redefinition of a helper, and by a late definition *)
 Example C13_witness :
   let v n := {| s_kind := SVar (Some n); s_code := 0; s_defaults := 0; s_refs := [] |} in
